@@ -142,7 +142,7 @@ for k in claimed:
 # Round 6: limits of the approach, stated where a reader of the manifest sees them.
 R6 = " Limits: the check is silent on the unchanged tree and on the 680 stored behaviour-preserving patches (three documented exceptions, DESIGN §12); on a previously unseen combined restructuring of the anchored code about half of the commits raised a (diagnosable) false alarm when first run (rounds 5 and 6), on a single-step clean-up about 8% (round 4)."
 for k in claimed:
-    claimed[k]["note"] += R6
+    claimed[k]["note"] = claimed[k].get("note", NOTE_COMMON) + R6
 claimed["C01"]["note"] = claimed["C01"]["note"].replace("(20 hand-reviewed obligations,", "(9 hand-reviewed obligations,") + " Reviewed assumptions (instance separation of a reader and its source; pfbReader.len >= 0 with its stores checked) are in /verif/reviewed/assumptions.json and listed in the evidence when used. Unexported anchors that were renamed are resolved by shape against /verif/anchors.json (evidence: anchors_resolved_by_shape)."
 
 NA = {}
